@@ -44,6 +44,8 @@ ASSUMPTIONS = [
     "scale_strength refuses / mis-scales (subject of C15), unrelated to seeding",
     "members of a compose that are not KDTransforms (torchvision callables) are only deterministic ones: the library documents no way to seed them",
     "children of KDRandomApply keep type and size (skip and apply must be interchangeable for the members that follow)",
+    "semseg crops keep at least 6 px per side and a PatchwiseTransform sees at most 24 patches (degenerate strips handed to an "
+    "aspect-preserving resize, and cost, are outside the seeding property)",
     "pipelines whose constructor crashes (BYOLTransform(norm='imagenet'), MAEFinetuneTransform()) are probed and reported in the notes, "
     "not judged; they are judged automatically once they can be constructed",
     "consumption of global RNG state is judged around the calls after the injection (constructors and worker_init_fn draw from the "
@@ -107,7 +109,7 @@ def gen_cases(run):
     rng = run.rng
     flags = _flags(run)
     # (1) every stochastic recipe on each of its input kinds
-    reps = run.n(4, 16 * 16)
+    reps = run.n(4, 16 * 12)
     names = [n for n, r in H.RECIPES.items() if r.kd and (r.stochastic or r.pipeline)
              and (not r.may_be_unconstructible or n in flags["constructible"])]
     for rep in range(reps):
@@ -125,7 +127,7 @@ def gen_cases(run):
                     spec["_trivial"] = True
                 yield spec
     # (2) random compositions
-    for i in range(run.n(700, 80000)):
+    for i in range(run.n(700, 64000)):
         T = H.random_input_type(rng)
         depth = rng.choice([1, 2, 2, 3, 3])
         tree, _ = H.gen_composition(rng, T, depth, flags)
